@@ -147,6 +147,10 @@ def run(rep):
 def conversion_chain(term):
     """classify how a WGSL name reaches Ident::new: ('identity'|'affixed'|'case-mapped'|'other', detail)"""
     arg = term[2][0]
+    tl = table_literals(arg)
+    if tl is not None:
+        bad = [x for x in tl if not re.fullmatch(r'[A-Za-z_][A-Za-z0-9_]*', x) or x in RUST_KEYWORDS]
+        return ('literal', 'identifier spelled in a constant table of the generator source') if not bad else ('other', f'table literal {bad[0]!r} is not an identifier')
     dyn = [False]
     E.walk(arg, lambda x: dyn.__setitem__(0, True) if x[0] in ('param', 'idx', 'vf', 'unwrap', 'mcall', 'call', 'new', 'acc', 'unknown', 'reccall', 'callv') else None)
     if not dyn[0]:
@@ -169,6 +173,31 @@ def conversion_chain(term):
     if arg[0] == 'alt':
         return 'identity', E.show(arg, maxdepth=3)
     return 'other', E.show(arg, maxdepth=3)
+
+
+def table_literals(arg):
+    """the string literals an identifier can be when it is one column of a row selected from a constant list of tuples
+    (`TABLE.iter().find(|row| ..).map(|(.., name)| Ident::new(name, ..))`); None when the term is anything else"""
+    while arg[0] in ('unwrap', 'cast'):
+        arg = arg[1]
+    if arg[0] != 'tf':
+        return None
+    base, i = arg[1], arg[2]
+    while base[0] == 'unwrap':
+        base = base[1]
+    src = None
+    if base[0] == 'found' and base[1][0] == 'star' and base[1][3][0] == 'elem' and base[1][3][1] == base[1][2]:
+        src = base[1][1]
+    elif base[0] == 'elem':
+        src = base[2]
+    if src is None or src[0] != 'tuple' or not src[1]:
+        return None
+    out = []
+    for row in src[1]:
+        if row[0] != 'tuple' or i >= len(row[1]) or row[1][i][0] != 'lit' or not isinstance(row[1][i][2], str):
+            return None
+        out.append(row[1][i][2].strip('"'))
+    return out
 
 
 def hygiene(rep, ogp, sch, out, where):
